@@ -6,7 +6,7 @@ import z3
 
 from . import REGISTRY as R
 from ..parser import Unsupported, split_top, strip_generics
-from ..values import (Adt, Coroutine, Closure, LV, Ref, BoxV, PyVec, PySlice, PyMap, FnItem, Opaque, TokStr, ZStr,
+from ..values import (Adt, Coroutine, Closure, LV, Ref, BoxV, PyVec, PySlice, PyMap, FnItem, Opaque, TokStr, ZStr, NumStr,
                       SegStr, Bytes, Some, NONE, Ok, Err, Tuple, UNIT, is_sym, copy_val, clone_val, deref, deref1,
                       mkref)
 from ..explore import Panic, PathAbort
@@ -78,7 +78,7 @@ def str_eq(a, b):
 
 
 def is_strlike(v):
-    return isinstance(v, (str, TokStr, ZStr, SegStr))
+    return isinstance(v, (str, TokStr, ZStr, SegStr, NumStr))
 
 
 def val_eq(a, b):
